@@ -25,6 +25,9 @@ EVERY_TYPE_MACROS = {
     'mmath': [('{', 'math')],
     'mtext': [('{', 'text')],
     'mnone': [],
+    'me': ['e{^_}'],
+    'many': ['AnyDelimited'],
+    'manyo': ['AnyDelimitedOptional', 'm'],
 }
 EVERY_TYPE_ENVS = {
     'eenv': ['[', '{'],
